@@ -32,6 +32,7 @@ def groups(rM, rMinv, cM=None, cMinv=None):
 
 
 def run(ctx):
+    integrity(ctx, ['crysp/bits.py', 'crysp/chacha.py', 'crysp/poly.py', 'crysp/rc4.py', 'crysp/salsa20.py', 'crysp/utils/operators.py'])
     ctx.rule('C06-R1 constants and index maps')
 
     def consts():
